@@ -257,7 +257,7 @@ func runC21(c *CaseCtx) {
 			b[bit/8] ^= 1 << uint(bit%8)
 			check(fmt.Sprintf("flipping bit %d (byte %d)", bit, bit/8), rw, b)
 			c.Stat("bit_flips", 1)
-			if len(c.res.Viol) >= 4 {
+			if c.Unexplained() >= 4 {
 				return
 			}
 		}
@@ -281,7 +281,7 @@ func runC21(c *CaseCtx) {
 	for _, rw := range rws {
 		for l := 0; l < len(enc); l++ {
 			check(fmt.Sprintf("truncating to %d of %d bytes", l, len(enc)), rw, enc[:l])
-			if len(c.res.Viol) >= 4 {
+			if c.Unexplained() >= 4 {
 				return
 			}
 		}
